@@ -1833,6 +1833,7 @@ pub fn lookup(seed: u64, focus: Focus, rep: &mut Report) {
             let mut first_tx: HashMap<(usize, Vec<u8>), Duration> = HashMap::new();
             let mut answered: HashMap<(usize, Vec<u8>), Duration> = HashMap::new();
             let mut learned: HashSet<Id> = HashSet::new();
+            let mut learned_at: HashMap<Id, Duration> = HashMap::new();
             let mut partial: HashMap<(usize, Vec<u8>), (u64, Vec<Vec<u8>>, bool)> = HashMap::new();
             let mut activity: HashMap<(usize, Vec<u8>), Duration> = HashMap::new();
             let mut all_tx: HashMap<(usize, Vec<u8>), Vec<Duration>> = HashMap::new();
@@ -1871,6 +1872,7 @@ pub fn lookup(seed: u64, focus: Focus, rep: &mut Report) {
                                     for r in &acc.1 {
                                         if let Some(e) = rlp_ref::decode_record(r) {
                                             learned.insert(e.node_id().raw());
+                                            learned_at.entry(e.node_id().raw()).or_insert(*at);
                                         }
                                     }
                                 }
@@ -2005,8 +2007,32 @@ pub fn lookup(seed: u64, focus: Focus, rep: &mut Report) {
                     EvSum::Discovered(id, _) => Some(*id),
                     _ => None,
                 }).collect();
-                let skipped: Vec<String> = learned.iter().filter(|id| announced.contains(*id) && **id != vid && !contacted.contains(*id) && s.w.node_by_id(id).is_some() && dist(id) < farthest).map(|id| format!("{}=node{}", hx(&id[..4]), s.w.node_by_id(id).unwrap())).collect();
+                // (the call's return is noticed one step after the lookup ended, and an answer may
+                // complete in that very millisecond: that the lookup was still running after it had
+                // learnt of the candidate is taken from the wire - it sent another request later)
+                let last_request = first_tx.values().copied().max().unwrap_or(Duration::ZERO);
+                let skipped: Vec<String> = learned.iter().filter(|id| learned_at.get(*id).map(|t| *t + Duration::from_millis(1) < last_request).unwrap_or(false) && announced.contains(*id) && **id != vid && !contacted.contains(*id) && s.w.node_by_id(id).is_some() && dist(id) < farthest).map(|id| format!("{}=node{}", hx(&id[..4]), s.w.node_by_id(id).unwrap())).collect();
                 rep.count("sys_full_results_judged_for_skipped_candidates");
+                if !skipped.is_empty() && std::env::var("DV5_DEBUG").is_ok() {
+                    for (at, e) in &s.w.trace[pos0..] {
+                        if let WEv::Injected { node: Some(i), msg: Some(RefMessage::Nodes { id, records, total }), .. } = e {
+                            for r in records {
+                                if let Some(enr) = rlp_ref::decode_record(r) {
+                                    let x = enr.node_id().raw();
+                                    if skipped.iter().any(|sk| sk.starts_with(&hx(&x[..4]))) {
+                                        eprintln!("DEBUG named: {} at {:?} by node {i} in answer #{} total {total}; t_done {:?}", hx(&x[..4]), at, hx(id), t_done);
+                                    }
+                                }
+                            }
+                        }
+                    }
+                    let mut ranks: Vec<(Vec<u8>, String)> = result.iter().map(|e| (dist(&e.node_id().raw()).to_vec(), hx(&e.node_id().raw()[..4]))).collect();
+                    ranks.sort();
+                    eprintln!("DEBUG result by distance: {:?}", ranks.iter().map(|(d, n)| format!("{n}:{}", hx(&d[..3]))).collect::<Vec<_>>());
+                    for id in learned.iter().filter(|id| skipped.iter().any(|sk| sk.starts_with(&hx(&id[..4])))) {
+                        eprintln!("DEBUG skipped {} dist {}", hx(&id[..4]), hx(&dist(id)[..3]));
+                    }
+                }
                 if !skipped.is_empty() {
                     s.flag(rep, Focus::C10, "C10:closer-candidate-not-contacted", format!("the lookup returned a full result, yet {} candidates it had learnt of that are closer to the target than the farthest returned node were never contacted ({:?})", skipped.len(), &skipped[..skipped.len().min(4)]), wit.clone());
                 }
